@@ -297,15 +297,15 @@ func handleZDIFF(params internal.HandlerFuncParams) ([]byte, error) {
 		return nil, errors.New(constants.WrongArgsResponse)
 	}
 
-	// Extract base set
-	if !keyExists[keys.ReadKeys[0]] {
-		// If base set does not exist, return an empty array
-		return []byte("*0\r\n"), nil
-	}
-
-	baseSortedSet, ok := params.GetValues(params.Context, []string{keys.ReadKeys[0]})[keys.ReadKeys[0]].(*SortedSet)
-	if !ok {
-		return nil, fmt.Errorf("value at %s is not a sorted set", keys.ReadKeys[0])
+	// Extract base set. A base set that does not exist is an empty sorted set:
+	// the result is empty, but the remaining keys must still hold sorted sets.
+	baseSortedSet := NewSortedSet([]MemberParam{})
+	if keyExists[keys.ReadKeys[0]] {
+		var ok bool
+		baseSortedSet, ok = params.GetValues(params.Context, []string{keys.ReadKeys[0]})[keys.ReadKeys[0]].(*SortedSet)
+		if !ok {
+			return nil, fmt.Errorf("value at %s is not a sorted set", keys.ReadKeys[0])
+		}
 	}
 
 	// Extract the remaining sets
@@ -350,15 +350,15 @@ func handleZDIFFSTORE(params internal.HandlerFuncParams) ([]byte, error) {
 	keyExists := params.KeysExist(params.Context, keys.ReadKeys)
 	destination := keys.WriteKeys[0]
 
-	// Extract base set
-	if !keyExists[keys.ReadKeys[0]] {
-		// If base set does not exist, return 0
-		return []byte(":0\r\n"), nil
-	}
-
-	baseSortedSet, ok := params.GetValues(params.Context, []string{keys.ReadKeys[0]})[keys.ReadKeys[0]].(*SortedSet)
-	if !ok {
-		return nil, fmt.Errorf("value at %s is not a sorted set", keys.ReadKeys[0])
+	// Extract base set. A base set that does not exist is an empty sorted set:
+	// the (empty) result still replaces the destination and 0 is returned.
+	baseSortedSet := NewSortedSet([]MemberParam{})
+	if keyExists[keys.ReadKeys[0]] {
+		var ok bool
+		baseSortedSet, ok = params.GetValues(params.Context, []string{keys.ReadKeys[0]})[keys.ReadKeys[0]].(*SortedSet)
+		if !ok {
+			return nil, fmt.Errorf("value at %s is not a sorted set", keys.ReadKeys[0])
+		}
 	}
 
 	var sets []*SortedSet
